@@ -1,7 +1,7 @@
 /-
   C16 — The store directory stays valid; the consistency check is exact.
 -/
-import Whawty.Lemmas.StoreCheck
+import Whawty.Lemmas.StoreInv
 namespace Whawty.Store.C16
 open Whawty Whawty.Rec Whawty.Store
 
@@ -157,5 +157,169 @@ theorem init_produces_valid_store {c : Cfg} {d d' : Dir} {u pw salt : Bytes} {no
 /- Non-vacuity of `check_exact`: a two-entry store. -/
 example : checkUserFile ([97] ++ adminExt) = some (true, [97], true) := by
   rw [checkUserFile_admin]; rfl
+
+
+/-! ### The store stays valid over every history that keeps an administrator -/
+
+/-- What the oracle inputs of a write must satisfy for the written record to be a supported
+    one: a time in the machine range, a non-empty salt and a non-empty digest (true of every
+    real write: 16/32 random bytes, tag length ≥ 1). -/
+def WriteOk (c : Cfg) (pw salt : Bytes) (now : Int) : Prop :=
+  (-(2 ^ 63 : Int) ≤ now ∧ now < 2 ^ 63) ∧ salt ≠ [] ∧ ∀ id ps, c.lookup id = some ps → ps.digest salt pw ≠ []
+
+def OpOk (c : Cfg) : Op → Prop
+  | .add _ pw _ now salt => WriteOk c pw salt now
+  | .update _ pw now salt => WriteOk c pw salt now
+  | _ => True
+
+/-- The operation removes or demotes the LAST administrator: no supported, valid-named `.admin`
+    file of any other user exists. -/
+def TouchesLastAdmin (c : Cfg) (d : Dir) : Op → Prop
+  | .remove u => ¬ HasOtherAdmin c d u
+  | .setAdmin u false => ¬ HasOtherAdmin c d u
+  | _ => False
+
+structure CfgOk (c : Cfg) : Prop where
+  defaultLt : c.default < 2 ^ 64
+  plain : ∀ id ps, c.lookup id = some ps → ∀ ch ∈ ps.formatId, ch ≠ colon ∧ ch ≠ nl
+
+/-- One operation — successful or failing — on a directory that passes the check leaves a
+    directory that passes the check, unless it removes or demotes the last administrator. -/
+theorem step_preserves_valid {c : Cfg} {d : Dir} (hc : CfgOk c) (hv : check c d = true) (op : Op)
+    (hop : OpOk c op) (hl : ¬ TouchesLastAdmin c d op) : check c (step c d op) = true := by
+  obtain ⟨hE, hA⟩ := (check_iff c d).1 hv
+  cases op with
+  | add u pw adm now salt =>
+    simp only [step]
+    cases hadd : add c d u pw adm now salt with
+    | error e => exact hv
+    | ok d' =>
+      obtain ⟨ps, dt, a, he, hps, htmp, hd'⟩ := add_ok hadd
+      subst hd'
+      obtain ⟨hvn, _, _, h2⟩ := exists_ok_iff he
+      obtain ⟨_, hga, hgu⟩ := h2 rfl
+      have hother : has d (fileName u (!adm)) = false := by
+        cases adm <;> simp [has, fileName, hga, hgu]
+      obtain ⟨⟨ht1, ht2⟩, hsalt, hdig⟩ := hop
+      refine (check_iff c _).2 ⟨entriesOk_write hE htmp hother, hasAdmin_write hA htmp hvn fun _ => ?_⟩
+      exact supported_newContent c ps now salt pw [] hps (hc.plain _ _ hps) ht1 ht2 hc.defaultLt hsalt (hdig _ _ hps)
+  | update u pw now salt =>
+    simp only [step]
+    cases hup : update c d u pw now salt with
+    | error e => exact hv
+    | ok d' =>
+      obtain ⟨ps, dt, a, old, he, hold, _, hps, htmp, hd'⟩ := update_ok hup
+      subst hd'
+      obtain ⟨hvn, _, _, _⟩ := exists_ok_iff he
+      -- the user's present file is an entry: its other extension is absent
+      have hother : has d (fileName u (!a)) = false := by
+        rcases hE _ (get_some_mem hold) with ht | ⟨valid, v, adm, hcu, hvv⟩
+        · exact absurd ht.symm (tmp_ne_fileName u a)
+        · rw [checkUserFile_fileName] at hcu
+          simp only [Option.some.injEq, Prod.mk.injEq] at hcu
+          obtain ⟨h1, h2, h3⟩ := hcu
+          subst h2; subst h3
+          exact hvv (by rw [← h1]; exact hvn)
+      obtain ⟨⟨ht1, ht2⟩, hsalt, hdig⟩ := hop
+      refine (check_iff c _).2 ⟨entriesOk_write hE htmp hother, hasAdmin_write hA htmp hvn fun _ => ?_⟩
+      exact supported_newContent c ps now salt pw old hps (hc.plain _ _ hps) ht1 ht2 hc.defaultLt hsalt (hdig _ _ hps)
+  | setAdmin u st =>
+    simp only [step]
+    cases hsa : setAdmin d u st with
+    | error e => exact hv
+    | ok d' =>
+      rcases setAdmin_shape hsa with rfl | ⟨a, x, he, hst, hx, hd'⟩
+      · exact hv
+      · subst hd'
+        have hOther : HasOtherAdmin c d u := by
+          cases a with
+          | true =>
+            -- a demotion: by hypothesis not of the last administrator
+            have : st = false := by simpa using hst
+            subst this
+            exact Classical.byContradiction fun hn => hl (by simpa [TouchesLastAdmin] using hn)
+          | false =>
+            -- a promotion: `u` has no `.admin` file, so the administrator that exists is another user
+            obtain ⟨e, hed, hne, v, hcu, hs⟩ := hA
+            refine ⟨e, hed, hne, v, fun hvu => ?_, hcu, hs⟩
+            subst hvu
+            obtain ⟨_, _, h1, _⟩ := exists_ok_iff he
+            obtain ⟨y, hun, _⟩ := h1 rfl
+            have hnone : get d (v ++ adminExt) = none := by
+              simp only [userNode] at hun
+              cases hg : get d (v ++ adminExt) with
+              | none => rfl
+              | some z => simp [hg] at hun
+            have hname := checkUserFile_name hcu
+            have := has_of_mem hed
+            rw [hname] at this
+            simp [has, fileName, hnone] at this
+        exact (check_iff c _).2 ⟨entriesOk_rename hE, hasAdmin_rename_of_other hOther⟩
+  | remove u =>
+    simp only [step, remove]
+    by_cases hvn : validName u = true
+    · simp only [hvn, Bool.not_true, Bool.false_eq_true, if_false]
+      have hOther : HasOtherAdmin c d u :=
+        Classical.byContradiction fun hn => hl (by simpa [TouchesLastAdmin] using hn)
+      exact (check_iff c _).2 ⟨entriesOk_remove u hE, hasAdmin_remove hOther⟩
+    · simp only [hvn, Bool.not_false, if_true]
+      exact hv
+
+/-- A history is safe when every operation has well-formed oracle inputs and none of them, in
+    the state it is applied to, removes or demotes the last administrator. -/
+def SafeHist (c : Cfg) : Dir → List Op → Prop
+  | _, [] => True
+  | d, op :: rest => OpOk c op ∧ ¬ TouchesLastAdmin c d op ∧ SafeHist c (step c d op) rest
+
+/-- **The store stays valid.** From a directory that passes the check, after EVERY prefix of
+    every safe history — any length, any users, successful and failing operations — the
+    directory passes the check. -/
+theorem ops_preserve_valid {c : Cfg} (hc : CfgOk c) (h : List Op) :
+    ∀ d, check c d = true → SafeHist c d h → ∀ k, check c (run c d (h.take k)) = true := by
+  induction h with
+  | nil => intro d hv _ k; simpa [run] using hv
+  | cons op rest ih =>
+    intro d hv hs k
+    cases k with
+    | zero => simpa [run] using hv
+    | succ k =>
+      obtain ⟨hop, hl, hrest⟩ := hs
+      simp only [List.take_succ_cons, run, List.foldl_cons]
+      exact ih (step c d op) (step_preserves_valid hc hv op hop hl) hrest k
+
+/-- A directory that passes the check never holds two files for one (valid) user name … -/
+theorem valid_never_two_files {c : Cfg} {d : Dir} (hv : check c d = true) (u : Bytes) (hvn : validName u = true) :
+    ¬ (has d (u ++ adminExt) = true ∧ has d (u ++ userExt) = true) := by
+  rintro ⟨ha, hu⟩
+  obtain ⟨hE, _⟩ := (check_iff c d).1 hv
+  obtain ⟨x, hx⟩ := has_mem ha
+  rcases hE _ hx with ht | ⟨valid, v, adm, hcu, hvv⟩
+  · exact tmp_ne_admin u ht.symm
+  · have : (u ++ adminExt) = fileName u true := by simp [fileName]
+    simp only [this, checkUserFile_fileName, Option.some.injEq, Prod.mk.injEq] at hcu
+    obtain ⟨h1, h2, h3⟩ := hcu
+    subst h2; subst h3
+    have := hvv (by rw [← h1]; exact hvn)
+    simp [fileName, hu] at this
+
+/-- … hence no state of a safe history does. (The work area is structurally empty in this
+    layer: `.tmp` is a `Node.dir` without content; that the real operations leave it empty is
+    `law.C16.work_area_empty_after_op` on every step of the run and the trace skeletons.) -/
+theorem history_never_two_files {c : Cfg} (hc : CfgOk c) (h : List Op) (d : Dir) (hv : check c d = true)
+    (hs : SafeHist c d h) (k : Nat) (u : Bytes) (hvn : validName u = true) :
+    ¬ (has (run c d (h.take k)) (u ++ adminExt) = true ∧ has (run c d (h.take k)) (u ++ userExt) = true) :=
+  valid_never_two_files (ops_preserve_valid hc h d hv hs k) u hvn
+
+/- Non-vacuity: a store with two administrators; removing one of them is safe, removing both
+   is not (the second removal touches the last administrator). -/
+section NonVacuity
+def psX : ParamSet := ⟨[120], fun _ _ => [1]⟩                       -- format id "x", constant digest
+def cX : Cfg := ⟨1, [(1, psX)]⟩
+def recX : Bytes := formatLine [120] 5 1 (hashStrOf [7] [1])
+def dX : Dir := [([97] ++ adminExt, .file recX), ([98] ++ adminExt, .file recX), (tmpName, .dir)]
+example : check cX dX = true := by decide +kernel
+example : check cX (run cX dX [.remove [97]]) = true := by decide +kernel
+example : check cX (run cX dX [.remove [97], .remove [98]]) = false := by decide +kernel
+end NonVacuity
 
 end Whawty.Store.C16
